@@ -178,7 +178,7 @@ def post(check, pairs, stats):
 CFG = {
     "id": "C09",
     "level": "proof",
-    "lean_modules": ["GeomV.C09.Proofs", "GeomV.C09.ProofsProj", "GeomV.C09.ProofsDatum", "GeomV.C09.ProofsPipeline", "GeomV.C09.ProofsInit", "GeomV.C09.ProofsInit2", "GeomV.C09.ProofsInit3", "GeomV.C09.ProofsInit4", "GeomV.C09.ProofsParse", "GeomV.C09.ProofsFold", "GeomV.C09.ProofsParse2"],
+    "lean_modules": ["GeomV.C09.Proofs", "GeomV.C09.ProofsProj", "GeomV.C09.ProofsDatum", "GeomV.C09.ProofsPipeline", "GeomV.C09.ProofsInit", "GeomV.C09.ProofsInit2", "GeomV.C09.ProofsInit3", "GeomV.C09.ProofsInit4", "GeomV.C09.ProofsParse", "GeomV.C09.ProofsFold", "GeomV.C09.ProofsParse2", "GeomV.C09.ProofsPins"],
     "exe": "geomv_c09",
     "go_cmd": "c09",
     "stages": ["go:gen", "go:impl", "lean:judge"],
@@ -232,6 +232,9 @@ CFG = {
         # ... composed: DeriveConstants as a whole, and Parse(def) = new Proj(def) up to init for one definition string
         "goFold_keeps", "js_fold_keeps", "deriveTables_keepsG", "deriveTables_keepsJ", "go_deriveTail_eq_js",
         "go_deriveConstants_eq_js", "fresh_of_projString", "go_parse_eq_js",
+        # normalised source text of the functions whose model is still hand-written (any edit = broken tie)
+        "getDatum_pinned", "geocentric_to_geodetic_pinned", "datumTransform_pinned", "checkNotWGS_pinned", "NewTransform_pinned",
+        "transform3_pinned", "TMerc_inverse_pinned", "Krovak_inverse_pinned",
     ]],
     "trusted_base": [
         "Lean 4.33.0 kernel; axioms of every theorem printed by #print axioms must be within {propext, Classical.choice, Quot.sound}",
